@@ -2,7 +2,7 @@
     two consecutive segments, on both sides when it has two darts, and every other image is untouched. *)
 From Coq Require Import List NArith Bool Lia.
 From HC Require Import Base.Closure Stm.Prog Stm.ProgFacts Stm.Atomic Map2.Ops2 Map2.State2 Map2.Wf2 Map2.Wf2Proofs
-  Map2.Orbit2 Map2.SewTopo Map2.SewData Map2.Kern2 Map2.SwapTopo.
+  Map2.Orbit2 Map2.Orbit2Proofs Map2.SewTopo Map2.SewData Map2.SewAttr Map2.Kern2 Map2.KernWf Map2.SwapTopo.
 Import ListNotations.
 Open Scope N_scope.
 Arguments N.eqb : simpl never.
@@ -178,6 +178,171 @@ Proof.
     simpl_ne. reflexivity.
   - rewrite L6, L5, L4, L3, L2, L1, U3, U2, U1, P0.
     rewrite (proj2 (N.eqb_neq i 0) Ni0), (proj2 (N.eqb_neq i 1) Ni1), (proj2 (N.eqb_neq i 2) Ni2). cbn [andb]. reflexivity.
+Qed.
+
+(** ** the new vertex is at the requested position, under its identifier; no other coordinate changes *)
+Definition Snone (v : var) : Prop := False.
+Definition v_same (w w' : store) : Prop := forall d, vertex w' d = vertex w d.
+
+Definition s_same (w w' : store) : Prop := forall v, w' v = w v.
+Lemma s_same_b w w' : s_same w w' -> b_same w w'.
+Proof. intros Hs i d. unfold beta. rewrite Hs. reflexivity. Qed.
+Lemma s_same_v w w' : s_same w w' -> v_same w w'.
+Proof. intros Hs d. unfold vertex. rewrite Hs. reflexivity. Qed.
+Lemma s_same_wf n w w' : s_same w w' -> wf2 n w -> wf2 n w'.
+Proof. intros Hs W. eapply wf2_ext; [exact W|]. split; intros; unfold beta, unused; rewrite Hs; reflexivity. Qed.
+Lemma s_same_trans a b c : s_same a b -> s_same b c -> s_same a c.
+Proof. intros H1 H2 v. rewrite H2, H1. reflexivity. Qed.
+Lemma ro_step {X} E (a : prog X) (k : X -> prog unit) c w cnt w1 cnt1 :
+  writes_in Snone a -> run E (bind a k) c w cnt = (Done tt, w1, cnt1) ->
+  exists x wa cnta, s_same w wa /\ run E (k x) c wa cnta = (Done tt, w1, cnt1).
+Proof.
+  intros Hw Hr. rewrite run_bind in Hr.
+  destruct (run E a c w cnt) as [[[x|e| |q] wa] cnta] eqn:Ea; try discriminate Hr.
+  exists x, wa, cnta. split; [|exact Hr]. intros v. eapply writes_in_run; [exact Hw|exact Ea|]. intros [].
+Qed.
+Lemma wi_is_free_n d : writes_in Snone (is_free_atomic d).
+Proof.
+  unfold is_free_atomic. cbn. intros x. destruct (negb _); [exact I|]. cbn. intros y. destruct (negb _); [exact I|]. cbn. auto.
+Qed.
+Lemma link1_step_v E l r (k : prog unit) c w cnt w1 cnt1 :
+  run E (one_link_core l r ;;; k) c w cnt = (Done tt, w1, cnt1) ->
+  exists wa cnta, v_same w wa /\ run E k c wa cnta = (Done tt, w1, cnt1).
+Proof.
+  intros Hr. rewrite run_bind in Hr.
+  destruct (run E (one_link_core l r) c w cnt) as [[[[]|e| |q] wa] cnta] eqn:Es; try discriminate Hr.
+  exists wa, cnta. split; [|exact Hr]. apply run_one_link_core in Es. destruct Es as (-> & _). intros d. apply vertex_set1.
+Qed.
+Lemma link2_step_v E l r (k : prog unit) c w cnt w1 cnt1 :
+  run E (two_link_core l r ;;; k) c w cnt = (Done tt, w1, cnt1) ->
+  exists wa cnta, v_same w wa /\ run E k c wa cnta = (Done tt, w1, cnt1).
+Proof.
+  intros Hr. rewrite run_bind in Hr.
+  destruct (run E (two_link_core l r) c w cnt) as [[[[]|e| |q] wa] cnta] eqn:Es; try discriminate Hr.
+  exists wa, cnta. split; [|exact Hr]. apply run_two_link_core in Es. destruct Es as (-> & _). intros d. apply vertex_set2.
+Qed.
+Lemma unlink1_step_v E l (k : prog unit) c w cnt w1 cnt1 :
+  run E (one_unlink_core l ;;; k) c w cnt = (Done tt, w1, cnt1) ->
+  exists wa cnta, v_same w wa /\ run E k c wa cnta = (Done tt, w1, cnt1).
+Proof.
+  intros Hr. rewrite run_bind in Hr.
+  destruct (run E (one_unlink_core l) c w cnt) as [[[[]|e| |q] wa] cnta] eqn:Es; try discriminate Hr.
+  exists wa, cnta. split; [|exact Hr]. apply run_one_unlink_core in Es. destruct Es as (-> & _). intros d. apply vertex_clr1.
+Qed.
+Lemma unlink2_step_v E l (k : prog unit) c w cnt w1 cnt1 :
+  run E (two_unlink_core l ;;; k) c w cnt = (Done tt, w1, cnt1) ->
+  exists wa cnta, v_same w wa /\ run E k c wa cnta = (Done tt, w1, cnt1).
+Proof.
+  intros Hr. rewrite run_bind in Hr.
+  destruct (run E (two_unlink_core l) c w cnt) as [[[[]|e| |q] wa] cnta] eqn:Es; try discriminate Hr.
+  exists wa, cnta. split; [|exact Hr]. apply run_two_unlink_core in Es. destruct Es as (-> & _). intros d. apply vertex_clr2.
+Qed.
+
+Ltac rostep Hr B :=
+  apply ro_step in Hr;
+  [ let x := fresh "x" in let wk := fresh "wk" in let ck := fresh "ck" in destruct Hr as (x & wk & ck & B & Hr); cbv beta in Hr
+  | first [ apply wi_vertex_id | (cbn; intros; exact I) | apply wi_is_free_n
+          | (repeat match goal with |- writes_in _ (if ?b then _ else _) => destruct b end; first [exact I | apply wi_is_free_n]) ] ].
+Ltac vstep L Hr V := apply L in Hr; let wk := fresh "wv" in let ck := fresh "cv" in destruct Hr as (wk & ck & V & Hr).
+
+(* the last two statements: identifier of nd1 in the final topology, then the write *)
+Lemma final_write E n c s cnt w' cnt' nd1 (vv : V) :
+  dom_ok E n -> wf2 n w' -> nd1 <> 0 -> nd1 < n ->
+  run E (vnew <- vertex_id_tx n nd1 ;; write_vertex vnew vv) c s cnt = (Done tt, w', cnt') ->
+  exists i', is_vid n w' nd1 i' /\ vertex w' i' = Some vv /\ forall d, d <> i' -> vertex w' d = vertex s d.
+Proof.
+  intros Hdom W' Hn0 Hnn Hr.
+  assert (Ht : topo_eq s w').
+  { apply Sdata_topo. intros v Hv. eapply writes_in_run; [|exact Hr|exact Hv].
+    apply writes_in_bind; [apply wi_vertex_id|]. intros ?. cbn. intros; repeat split; exact I. }
+  assert (Ws : wf2 n s) by (eapply wf2_ext; [exact W'|]; destruct Ht as [A B]; split; intros; [rewrite A|rewrite B]; reflexivity).
+  destruct (vid_run E n c s nd1 cnt Hdom Ws Hn0 Hnn) as (i' & Ri & Vi). rewrite run_bind, Ri in Hr.
+  unfold write_vertex in Hr. cbn [run bind rdV wrV] in Hr.
+  destruct (e_dom E (XVertex i')); [|discriminate Hr]. cbn [run] in Hr. injection Hr as <- <-.
+  exists i'. split; [|split].
+  - destruct Vi as (L & EL & ML). exists L. split; [|exact ML]. rewrite <- EL. apply orbit2_topo.
+    split; intros; unfold beta, unused; rewrite upd_other; auto; discriminate.
+  - unfold vertex. rewrite upd_same. reflexivity.
+  - intros d Hd. unfold vertex. rewrite upd_other; [reflexivity|congruence].
+Qed.
+
+
+Lemma rdV_step {X} E d (k : option V -> prog X) c w cnt o w1 cnt1 :
+  run E (x <- rdV d ;; k x) c w cnt = (Done o, w1, cnt1) -> run E (k (vertex w d)) c w cnt = (Done o, w1, cnt1).
+Proof. cbn [run bind rdV]. destruct (e_dom E (XVertex d)); [auto|discriminate]. Qed.
+Lemma s_same_topo w w' : s_same w w' -> topo_eq w w'.
+Proof. intros Hs. split; intros; unfold beta, unused; rewrite Hs; reflexivity. Qed.
+Lemma is_vid_same n w w' d i : s_same w w' -> is_vid n w' d i -> is_vid n w d i.
+Proof. intros Hs. apply is_vid_topo, s_same_topo, Hs. Qed.
+
+Theorem insert_vertex_position E n ks e nd1 nd2 t c w cnt w' cnt' :
+  dom_ok E n -> wf2 n w -> okd n w e -> okd n w nd1 -> (beta w 2 e <> 0 -> okd n w nd2) ->
+  ~ (beta w 1 e = 0 /\ beta w 2 e = 0) ->
+  run E (insert_vertex_on_edge n ks e nd1 nd2 t) c w cnt = (Done tt, w', cnt') ->
+  exists i1 i2 i' v1 v2,
+    is_vid n w e i1 /\ is_vid n w (if beta w 2 e =? 0 then beta w 1 e else beta w 2 e) i2 /\
+    vertex w i1 = Some v1 /\ vertex w i2 = Some v2 /\
+    is_vid n w' nd1 i' /\ vertex w' i' = Some (new_vertex v1 v2 t) /\ forall d, d <> i' -> vertex w' d = vertex w d.
+Proof.
+  intros Hdom W Oe O1 O2 Hends Hr.
+  pose proof (insert_vertex_wf E n w ks e nd1 nd2 t c cnt w' cnt' W Oe O1 O2 Hends Hr) as W'.
+  pose proof Oe as (He0 & Hen & _). pose proof O1 as (H10 & H1n & _).
+  unfold insert_vertex_on_edge in Hr. cbv zeta in Hr.
+  destruct (match t with Some t0 => negb (sc_in_unit t0) | None => false end); [cbn in Hr; discriminate Hr|].
+  apply rd_step in Hr.
+  rostep Hr B1. destruct x; cbn [negb] in Hr; [|cbn in Hr; discriminate Hr].
+  rostep Hr B2. destruct x; cbn [negb] in Hr; [|cbn in Hr; discriminate Hr].
+  pose proof (s_same_trans _ _ _ B1 B2) as B. clear B1 B2.
+  pose proof (s_same_wf n _ _ B W) as Wk. pose proof (s_same_b _ _ B) as Bb. pose proof (s_same_v _ _ B) as Bv.
+  apply rd_step in Hr. rewrite Bb in Hr.
+  destruct (N.eqb_spec (beta w 2 e) 0) as [Z2|N2].
+  - (* one-dart edge *)
+    apply rd_step in Hr. rewrite Bb in Hr.
+    assert (Nb : beta w 1 e <> 0) by (intros Z; apply Hends; auto).
+    assert (Hbn : beta w 1 e < n) by (apply W; [lia|exact Hen]).
+    destruct (vid_run E n c wk0 e ck0 Hdom Wk He0 Hen) as (i1 & R1 & Vi1). rewrite run_bind, R1 in Hr.
+    destruct (vid_run E n c wk0 (beta w 1 e) ck0 Hdom Wk Nb Hbn) as (i2 & R2 & Vi2). rewrite run_bind, R2 in Hr.
+    apply rdV_step in Hr. apply rdV_step in Hr. rewrite !Bv in Hr.
+    destruct (vertex w i1) as [v1|] eqn:E1; [|cbn in Hr; discriminate Hr].
+    destruct (vertex w i2) as [v2|] eqn:E2; [|cbn in Hr; discriminate Hr].
+    destruct (N.eqb_spec (beta w 1 e) 0) as [Z|_]; [contradiction|]. cbn [negb] in Hr.
+    vstep unlink1_step_v Hr X1. vstep link1_step_v Hr X2. vstep link1_step_v Hr X3.
+    destruct (final_write E n c _ _ w' cnt' nd1 _ Hdom W' H10 H1n Hr) as (i' & Vi' & Ei' & Fr).
+    exists i1, i2, i', v1, v2. split; [eapply is_vid_same; eauto|]. split; [eapply is_vid_same; eauto|].
+    split; [exact E1|]. split; [exact E2|]. split; [exact Vi'|]. split; [exact Ei'|].
+    intros d Hd. rewrite (Fr d Hd), X3, X2, X1. apply Bv.
+  - (* two-dart edge *)
+    assert (Hdn : beta w 2 e < n) by (apply W; [lia|exact Hen]).
+    apply rd_step in Hr. apply rd_step in Hr. rewrite !Bb in Hr.
+    destruct (vid_run E n c wk0 e ck0 Hdom Wk He0 Hen) as (i1 & R1 & Vi1). rewrite run_bind, R1 in Hr.
+    destruct (vid_run E n c wk0 (beta w 2 e) ck0 Hdom Wk N2 Hdn) as (i2 & R2 & Vi2). rewrite run_bind, R2 in Hr.
+    apply rdV_step in Hr. apply rdV_step in Hr. rewrite !Bv in Hr.
+    destruct (vertex w i1) as [v1|] eqn:E1; [|cbn in Hr; discriminate Hr].
+    destruct (vertex w i2) as [v2|] eqn:E2; [|cbn in Hr; discriminate Hr].
+    assert (Hk : exists s cs, v_same wk0 s /\
+              run E (vnew <- vertex_id_tx n nd1 ;; write_vertex vnew (new_vertex v1 v2 t)) c s cs = (Done tt, w', cnt')).
+    { destruct (negb (beta w 1 e =? 0)), (negb (beta w 1 (beta w 2 e) =? 0)).
+      - vstep unlink1_step_v Hr X1. vstep unlink1_step_v Hr X2. vstep unlink2_step_v Hr X3.
+        vstep link1_step_v Hr X4. vstep link1_step_v Hr X5. vstep link1_step_v Hr X6. vstep link1_step_v Hr X7.
+        vstep link2_step_v Hr X8. vstep link2_step_v Hr X9.
+        eexists _, _. split; [|exact Hr]. intros d. rewrite X9, X8, X7, X6, X5, X4, X3, X2, X1. reflexivity.
+      - vstep unlink1_step_v Hr X1. cbn [run bind] in Hr. vstep unlink2_step_v Hr X3.
+        vstep link1_step_v Hr X4. vstep link1_step_v Hr X5. vstep link1_step_v Hr X6. cbn [run bind] in Hr.
+        vstep link2_step_v Hr X8. vstep link2_step_v Hr X9.
+        eexists _, _. split; [|exact Hr]. intros d. rewrite X9, X8, X6, X5, X4, X3, X1. reflexivity.
+      - cbn [run bind] in Hr. vstep unlink1_step_v Hr X2. vstep unlink2_step_v Hr X3.
+        vstep link1_step_v Hr X4. cbn [run bind] in Hr. vstep link1_step_v Hr X6. vstep link1_step_v Hr X7.
+        vstep link2_step_v Hr X8. vstep link2_step_v Hr X9.
+        eexists _, _. split; [|exact Hr]. intros d. rewrite X9, X8, X7, X6, X4, X3, X2. reflexivity.
+      - cbn [run bind] in Hr. vstep unlink2_step_v Hr X3.
+        vstep link1_step_v Hr X4. cbn [run bind] in Hr. vstep link1_step_v Hr X6. cbn [run bind] in Hr.
+        vstep link2_step_v Hr X8. vstep link2_step_v Hr X9.
+        eexists _, _. split; [|exact Hr]. intros d. rewrite X9, X8, X6, X4, X3. reflexivity. }
+    destruct Hk as (s & cs & Xs & Hk).
+    destruct (final_write E n c s cs w' cnt' nd1 _ Hdom W' H10 H1n Hk) as (i' & Vi' & Ei' & Fr).
+    exists i1, i2, i', v1, v2. split; [eapply is_vid_same; eauto|]. split; [eapply is_vid_same; eauto|].
+    split; [exact E1|]. split; [exact E2|]. split; [exact Vi'|]. split; [exact Ei'|].
+    intros d Hd. rewrite (Fr d Hd), Xs. apply Bv.
 Qed.
 
 End InsertTopo.
